@@ -25,21 +25,21 @@ func evalCatalogue(p *population) []clause {
 		}
 		return id[:n]
 	}
-	people := []string{"descartes", "René", "rené descartes", "ADA", "ada-l", idPrefix("I1"), strings.ToUpper(idPrefix("I3")), "nobody"}
+	people := []string{"descartes", "René", "rené descartes", "ADA", "ada-l", idPrefix("I1"), strings.ToUpper(idPrefix("I3")), "nobody", "O'Neil"}
 	out := []clause{mk("status", "open", false), mk("status", "closed", false)}
 	for _, kind := range []string{"author", "actor", "participant"} {
 		for _, v := range people {
 			out = append(out, mk(kind, v, false))
 		}
 	}
-	for _, v := range []string{"prod", "Good first issue", "étiquette", "missing"} {
+	for _, v := range []string{"prod", "Good first issue", "étiquette", "missing", "it's"} {
 		out = append(out, mk("label", v, false))
 	}
-	for _, v := range []string{"Critical", "Typo in string", "crash", "a:b", "zzz"} {
+	for _, v := range []string{"Critical", "Typo in string", "crash", "a:b", "zzz", "can't reproduce"} {
 		out = append(out, mk("title", v, false))
 	}
 	out = append(out, mk("nolabel", "", false))
-	out = append(out, mkMeta("github-id", "42", false), mkMeta("github-id", "43", false), mkMeta("origin", "two words", false), mkMeta("origin", "absent", false))
+	out = append(out, mkMeta("github-id", "42", false), mkMeta("github-id", "43", false), mkMeta("origin", "two words", false), mkMeta("origin", "absent", false), mkMeta("origin", "it's:here", false))
 	for _, v := range []string{"zebra", "quokka", "okapi", "absentword"} {
 		out = append(out, mk("search", v, false))
 	}
